@@ -2,6 +2,7 @@ package sym
 
 import (
 	"fmt"
+	"os"
 	"go/constant"
 	"go/token"
 	"go/types"
@@ -197,7 +198,7 @@ func (ip *Interp) constValue(c *ssa.Const) Value {
 // global returns the slot of a package-level variable, initialising its package on first use.
 func (ip *Interp) global(g *ssa.Global) *Value {
 	if ip.initMode {
-		return ip.pr.initGlobal(g)
+		return ip.pr.initGlobalLocked(g) // the running initialiser already holds initMu
 	}
 	if s, ok := ip.globals[g]; ok {
 		return s
@@ -370,7 +371,9 @@ func (pr *Program) runInit(pkg *ssa.Package) {
 			defer func() {
 				if r := recover(); r != nil {
 					// tolerated: remaining globals keep their zero/partial values
-					_ = r
+					if os.Getenv("SYMGO_DEBUG_INIT") != "" {
+						fmt.Fprintf(os.Stderr, "init of %s aborted: %v\n", pkg.Pkg.Path(), r)
+					}
 				}
 			}()
 			ip.callFunction(initFn, nil)
@@ -407,7 +410,7 @@ func (ip *Interp) callFunction(fn *ssa.Function, args []Value) Value {
 	if h := ip.harnessAPI(fn); h != nil {
 		return h(ip, fn, args)
 	}
-	if ip.initMode && fn.Name() == "init" && fn.Signature.Recv() == nil && len(args) == 0 && fn.Pkg != nil && fn == fn.Pkg.Func("init") {
+	if ip.initMode && ip.depth > 0 && fn.Name() == "init" && fn.Signature.Recv() == nil && len(args) == 0 && fn.Pkg != nil && fn == fn.Pkg.Func("init") {
 		// dependency initialisers run lazily, on first access to their globals
 		return nil
 	}
@@ -541,11 +544,9 @@ func (fr *frame) exec(instr ssa.Instruction) bool {
 			func() {
 				defer func() {
 					if r := recover(); r != nil {
-						switch r.(type) {
-						case engineError, targetPanic, pathEnd:
-							res = &Opaque{Why: fmt.Sprint(r)}
-						default:
-							res = &Opaque{Why: fmt.Sprint(r)}
+						res = &Opaque{Why: fmt.Sprint(r)}
+						if os.Getenv("SYMGO_DEBUG_INIT") != "" {
+							fmt.Fprintf(os.Stderr, "init call %s in %s -> opaque: %v\n", in.Call.Value, fr.fn, r)
 						}
 					}
 				}()
